@@ -147,6 +147,8 @@ def write(path, tier, seed, results, violations, known_hits, harness_errors, wal
             "components": {
                 "real_code": "all of a5 (src/**), std thread_local!/OnceLock/LazyLock, lazy_static Once; nothing is stubbed or modelled",
                 "substituted": "verif::SimHashState replaces RandomState in the two HashSets (compact, lonlat_to_cell) in all engines, so that hash iteration order is a function of the seed",
+                "seams_under_the_library": "LD_PRELOAD shim sim/fakeclock.c in the native engines: clock_gettime/gettimeofday/time add a simulator-controlled offset (clock_jump faults); pthread_create is interposed so that threads the library itself starts inside a call run under the baton scheduler. Both are inert on the unchanged tree (it reads no clock and starts no threads).",
+                "engine_Hs": "the same real code, built from a COPY of the sources in which tools/instrument.py inserted a scheduling point in front of every atomic / lock / once-cell / thread-local operation (expression-level rewrite X.op() -> X.verif_sync().op(); computes exactly what it computed before)",
             },
             "known_findings_hit": known_hits,
             "harness_errors": harness_errors,
